@@ -227,7 +227,7 @@ class Body:
             for b in self.blocks:
                 for i, s in enumerate(b.stmts):
                     if s.lhs is not None:
-                        kind = "whole" if not s.lhs[1] else "partial"
+                        kind = "whole" if not s.lhs[1] else ("through" if any(e[0] == "*" for e in s.lhs[1]) else "partial")
                         d.setdefault(s.lhs[0], []).append((b.i, i, kind))
                     if s.rv is not None and s.rv.k in ("ref", "rawptr") and s.rv.j.get("mut"):
                         pl = s.rv.place
@@ -236,7 +236,7 @@ class Body:
                             d.setdefault(pl[0], []).append((b.i, i, "borrow_mut"))
                 t = b.term
                 if t.k == "call" and t.dest is not None:
-                    kind = "call" if not t.dest[1] else "partial"
+                    kind = "call" if not t.dest[1] else ("through" if any(e[0] == "*" for e in t.dest[1]) else "partial")
                     d.setdefault(t.dest[0], []).append((b.i, "term", kind))
             self._defs = d
         return self._defs
@@ -247,7 +247,7 @@ class Body:
             return None
         ds = self.defs().get(local, [])
         whole = [x for x in ds if x[2] in ("whole", "call")]
-        if len(whole) == 1 and all(x[2] in ("whole", "call", "borrow_mut") for x in ds):
+        if len(whole) == 1 and all(x[2] in ("whole", "call", "borrow_mut", "through") for x in ds):
             # a temp that is mutably borrowed is still a single value holder (e.g. `&mut tmp` passed to a call)
             return whole[0][:2]
         return None
@@ -638,12 +638,16 @@ class X:
         b = self.body
         # closure upvars etc.: longest named prefix
         best = None
-        for (nl, nproj), name in b.named_places:
-            if nl == local and proj[:len(nproj)] == nproj:
-                if best is None or len(nproj) > len(best[0]):
-                    best = (nproj, name)
-        if best is not None:
-            return ("var", best[1], show_proj(proj[len(best[0]):]))
+        if b.named_places:
+            pnd = [e for e in proj if e[0] != "*"]
+            for (nl, nproj), name in b.named_places:
+                if nl != local:
+                    continue
+                nnd = [e for e in nproj if e[0] != "*"]
+                if pnd[:len(nnd)] == nnd and (best is None or len(nnd) > best[0]):
+                    best = (len(nnd), name)
+            if best is not None:
+                return ("var", best[1], show_proj(pnd[best[0]:]))
         nm = self.local_name(local)
         if nm is not None:
             return ("var", nm, show_proj(proj))
@@ -860,6 +864,8 @@ def leaves(e):
             out.add("tmp:_%d%s" % (s[1], s[2]))
         elif k == "closure":
             out.add("closure:" + s[1])
+        elif k == "proj":
+            out.add("var:" + show(s, 200))
     return out
 
 
